@@ -418,9 +418,27 @@ def std_call(interp, name, args, kwargs, node=None):
     if name == "enum.auto":
         return Opaque("auto")
     if name == "collections.deque":
-        return list(lazy_iter(args[0])) if args else []
+        import collections as _c
+        it_ = list(lazy_iter(args[0])) if args and args[0] is not None else []
+        ml = args[1] if len(args) > 1 else kwargs.get("maxlen")
+        return _c.deque(it_, maxlen=ml)
     if name == "collections.OrderedDict":
         return dict(*args, **kwargs)
+    if name == "collections.Counter":
+        import collections as _c
+        return _c.Counter(*[list(lazy_iter(a)) if not isinstance(a, dict) else a for a in args], **kwargs)
+    if name == "collections.defaultdict":
+        import collections as _c
+        fac = args[0] if args else None
+        pyfac = None
+        if fac is not None:
+            bn = getattr(fac, "name", None)
+            if bn in ("int", "list", "dict", "set", "str", "float", "bool", "tuple", "bytes"):
+                import builtins as _b
+                pyfac = getattr(_b, bn)
+            else:
+                pyfac = lambda fac=fac: interp.apply(fac, [], {})  # noqa: E731
+        return _c.defaultdict(pyfac, *args[1:], **kwargs)
     if name == "ast.literal_eval":
         import ast as _ast
         if not isinstance(args[0], str):
